@@ -544,8 +544,10 @@ def roundtrip(doc, cfg):
   else:
     config = imsc_config.IMSCWriterConfiguration(
       time_format=None if cfg["fmt"] == "none" else TimeExpressionSyntaxEnum[cfg["fmt"]], fps=fps)
+  from .core import AltContext, alt_for
   try:
-    tree = writer.from_model(doc, config)
+    with AltContext(alt_for(("imscw", D, len(rec["A"].get("N", [])), cfg["fmt"]))) as ac:
+      tree = writer.from_model(doc, config, ac.progress)
     buf = io.BytesIO()
     tree.write(buf, encoding="utf-8", xml_declaration=True)
     data = buf.getvalue()
